@@ -9,6 +9,44 @@ namespace dsplib { namespace verif { uint64_t prime_steps_read(); } }
 using namespace vf;
 using dsplib::arr_int;
 
+// ---- calls made BEFORE main(): this translation unit is linked in front of the library archive, so the constructor below runs
+// before the dynamic initialisers of the library's own translation units.  The helpers must already answer correctly then (they
+// are plain functions of their argument; an application may well size its buffers from a static initialiser).
+struct PreMainCalls {
+    struct R {
+        uint32_t n;
+        bool ip, ip2;
+        std::vector<long long> f, pr;
+        uint32_t np;
+        int np2;
+    };
+    std::vector<R> rs;
+    static const std::vector<uint32_t>& args() {
+        static const std::vector<uint32_t> a = {0, 1, 2, 3, 4, 9, 97, 221, 1001, 4096, 65521, 65536, 65537, 360360, 16769023, 2147483647u, 4292870399u, 4294967291u, 4294967295u};
+        return a;
+    }
+    static R call(uint32_t n) {
+        R r;
+        r.n = n;
+        r.ip = dsplib::isprime(n);
+        if (n >= 2) {
+            arr_int f = dsplib::factor(n);
+            for (int i = 0; i < f.size(); ++i) r.f.push_back((long long)(uint32_t)f[i]);   // factors above INT_MAX come back as negative ints
+        }
+        r.np = n <= 4294967291u ? dsplib::nextprime(n) : 0;
+        arr_int pr = dsplib::primes(std::min<uint32_t>(n, 70000));
+        r.pr.assign(pr.begin(), pr.end());
+        const int m = (int)std::min<uint32_t>(std::max<uint32_t>(n, 1), 0x7FFFFFFFu);
+        r.np2 = dsplib::nextpow2(m);
+        r.ip2 = dsplib::ispow2(m);
+        return r;
+    }
+    PreMainCalls() {
+        for (uint32_t n : args()) rs.push_back(call(n));
+    }
+};
+static PreMainCalls g_premain;
+
 static std::vector<uint32_t> g_spf;       // smallest prime factor, n <= SIEVE_N
 static std::vector<uint32_t> g_small;     // primes <= 65536
 static uint32_t SIEVE_N = 0;
@@ -150,6 +188,34 @@ int main(int argc, char** argv) {
     }
     const double TMO = 8.0;   // a call takes < 2 ms on this machine; see DESIGN C15
 
+    // ---- the answers given before main() (static initialisation of the application) against the oracles and against the same calls now
+    for (size_t k = 0; k < g_premain.rs.size(); ++k) {
+        const PreMainCalls::R& r = g_premain.rs[k];
+        if (!ctx.take("prime.premain", P().kv("n", (long long)r.n))) continue;
+        ctx.evaluations += 6;
+        ctx.checks["prime.premain"].evals += 6;
+        PreMainCalls::R now = PreMainCalls::call(r.n);
+        auto rf = r.n >= 2 ? ref_factor(r.n) : std::vector<uint64_t>{};
+        std::vector<long long> rfl(rf.begin(), rf.end());
+        uint64_t np = r.n;
+        while (!ref_prime(np)) ++np;
+        std::vector<long long> prs;
+        for (uint32_t v = 2; v <= std::min<uint32_t>(r.n, 70000); ++v)
+            if (g_spf[v] == v) prs.push_back(v);
+        const int m = (int)std::min<uint32_t>(std::max<uint32_t>(r.n, 1), 0x7FFFFFFFu);
+        int np2 = 0;
+        while ((1ll << np2) < m) ++np2;
+        std::string bad;
+        if (r.ip != ref_prime(r.n)) bad = fmt("isprime(%u)=%d", r.n, (int)r.ip);
+        else if (r.f != rfl) bad = fmt("factor(%u)=%s (expected %s)", r.n, show(r.f).c_str(), show(rfl).c_str());
+        else if (r.n <= 4294967291u && r.np != np) bad = fmt("nextprime(%u)=%u (expected %llu)", r.n, r.np, (unsigned long long)np);
+        else if (r.pr != prs) bad = fmt("primes(%u) has %zu entries (expected %zu)", std::min<uint32_t>(r.n, 70000), r.pr.size(), prs.size());
+        else if (r.np2 != np2 || r.ip2 != ((1ll << np2) == m)) bad = fmt("nextpow2(%d)=%d ispow2=%d", m, r.np2, (int)r.ip2);
+        else if (now.ip != r.ip || now.f != r.f || now.np != r.np || now.pr != r.pr || now.np2 != r.np2 || now.ip2 != r.ip2) bad = fmt("answers for %u differ between the call before main() and the call now", r.n);
+        if (!bad.empty())
+            ctx.fail("static initialisation", "asked before main(): " + bad, "the number-theoretic answer, whenever the helper is called", P().kv("n", (long long)r.n));
+        if (r.n > 3) ctx.nontrivial();
+    }
     // ---- isprime / factor: every n in [0, N]
     {
         int hangs = 0;
